@@ -75,7 +75,8 @@ def run(ctx, case, L, R, C=None, tok="fresh", n_jobs=None, real=False, filt=None
                            case["L"]["key"], case["R"]["key"], case["L"]["attr"],
                            case["R"]["attr"], tok, simfns.get(case["fn"]), case["threshold"],
                            case["op"], case["allow_missing"], case["l_out"], case["r_out"],
-                           case["prefix"][0], case["prefix"][1], case["out_sim_score"], nj, False)
+                           case["prefix"][0], case["prefix"][1], case["out_sim_score"], nj,
+                           bool(case.get("show_progress", False)))
     f = filt
     if f is None:
         fcfg = c04.fcfg_of(case)
